@@ -55,6 +55,7 @@ type (
 	headResponse struct {
 		size int
 		http.ResponseWriter
+		discard http.Header // 非空表示已经调用过 Write，与 GET 一样，之后对报头和状态码的修改不再生效。
 	}
 )
 
@@ -358,10 +359,26 @@ func (p *Prefix[T]) Resource(pattern string, m ...types.Middleware[T]) *Resource
 // Router 返回与当前资源关联的 [Router] 实例
 func (r *Resource[T]) Router() *Router[T] { return r.router }
 
+func (resp *headResponse) Header() http.Header {
+	if resp.discard != nil {
+		return resp.discard
+	}
+	return resp.ResponseWriter.Header()
+}
+
+func (resp *headResponse) WriteHeader(code int) {
+	if resp.discard == nil {
+		resp.ResponseWriter.WriteHeader(code)
+	}
+}
+
 func (resp *headResponse) Write(bs []byte) (int, error) {
+	if resp.discard == nil { // GET 在第一次 Write 时发送报头，HEAD 需要保持一致。
+		resp.discard = resp.ResponseWriter.Header().Clone()
+	}
 	l := len(bs)
 	resp.size += l
 
-	resp.Header().Set(header.ContentLength, strconv.Itoa(resp.size))
+	resp.ResponseWriter.Header().Set(header.ContentLength, strconv.Itoa(resp.size))
 	return l, nil
 }
